@@ -9,8 +9,8 @@
    federated_data.py, in_memory_federated_data.py and sqlite_federated_data.py (gen/).
    `spec_run` is the abstract view: ranges and subsets requested, the two chains. *)
 From Coq Require Import ZArith NArith List Bool Permutation.
-From FV Require Import Common.Bytes Model.C08_Model Proofs.C08_Proofs.
-From FV Require Import gen.Gen_client_datasets_pre gen.Gen_federated_data.
+From FV Require Import Common.Bytes Common.PyIter Model.C08_Model Proofs.C08_Proofs.
+From FV Require Import gen.Gen_client_datasets_pre gen.Gen_federated_data gen.Gen_in_memory_federated_data gen.Gen_sqlite_federated_data.
 Import ListNotations.
 Local Open Scope Z_scope.
 
@@ -112,6 +112,39 @@ Theorem C08_iteration_order : forall (ds : list (bytes * list Z)), NoDup (map fs
     map fst (fst (fd_clients d)) = order /\ snd (fd_clients d) = Done.
 Proof. exact iteration_order. Qed.
 
+(* handing the whole chains to the constructors (InMemoryFederatedData(mapping, ClientPreprocessor(fns),
+   BatchPreprocessor(gns)), SQLiteFederatedData(conn, parse, None, None, ..)) and applying only the
+   slices / subsets afterwards is observationally the dataset obtained by registering them one by one
+   at any points of the operation sequence (obs_equiv: every observation equals the abstract view's) *)
+Theorem C08_ctor_chain_equiv : forall (ds : list (bytes * list Z)), NoDup (map fst ds) ->
+  forall ops (sql : bool),
+  let d0 := if sql then Sql ds None None (ops_c ops) (ops_b ops) else Mem ds (ops_c ops) (ops_b ops) in
+  exists d fl, fd_run d0 (view_ops ops) = Some (d, fl) /\ obs_equiv ds (fst (spec_run ds view0 ops)) d.
+Proof. exact ctor_chain_equiv. Qed.
+
+(* the TRANSLATED SQL statements / cursor loops / generator loops / shuffle bodies (gen/) in closed form:
+   range SELECTs list exactly the rows inside [start, stop) in table order; point lookups test the
+   range, then the key; get_clients walks the request in order; the subset wrapper raises KeyError at
+   the first foreign id and filters sizes; a shuffled pass is one shuffle of the source *)
+Theorem C08_translated_methods : forall st sp (tbl : list (bytes * list Z)) cs bs,
+  let rows := filter (fun kv => in_range (st, sp) (fst kv)) tbl in
+  sqlite_num_clients st sp tbl = Some (Z.of_nat (length rows)) /\
+  sqlite_client_ids st sp tbl = Some (map fst rows) /\
+  sqlite_client_sizes col_num_examples st sp tbl = Some (map (fun kv => (fst kv, stored_len (snd kv))) rows) /\
+  sqlite_read_clients col_data st sp tbl = Some (map (fun kv => (fst kv, snd kv)) rows) /\
+  (forall i, sqlite_client_size col_num_examples st sp tbl i =
+             if in_range (st, sp) i then match bassoc i tbl with Some r => Val (stored_len r) | None => KeyErr end else KeyErr) /\
+  (forall i, sqlite_get_client col_data (sql_dataset_of cs bs) st sp tbl i =
+             if in_range (st, sp) i then match bassoc i tbl with Some r => Val (client_dataset i cs bs r) | None => KeyErr end else KeyErr) /\
+  (forall get req, in_memory_get_clients get req = gets get req) /\
+  (forall get req, sqlite_get_clients get req = gets get req) /\
+  (forall ids get req, (forall i, get i <> Crash) ->
+     subset_get_clients ids (gets get req) = gets (fun i => if bmem i ids then get i else KeyErr) req) /\
+  (forall ids (l : list (bytes * Z)), subset_client_sizes ids l = filter (fun kv => bmem (fst kv) ids) l) /\
+  (forall S (shuffle : list S -> option (list S)) l,
+     in_memory_shuffled_pass shuffle l = shuffle l /\ subset_shuffled_pass shuffle l = shuffle l).
+Proof. exact translated_methods. Qed.
+
 (* deriving a view never changes its parent: the child is a function of the parent's value,
    and the parent is the run of the prefix whatever is derived afterwards *)
 Theorem C08_derive_is_persistent : forall p ds ops more d' fl',
@@ -175,6 +208,16 @@ Proof.
     intros p; destruct p; vm_compute; repeat split.
 Qed.
 
+(* the hypotheses of C08_shuffled_pass_visits_each_once are satisfiable: buffer 2, a recorded oracle *)
+Example C08_shuffle_example :
+  let ds := [(B [98], [1]); (B [97], [2; 3]); (B [99], [])] in
+  1 <= 2 /\ Forall (fun dd => - 2 <= dd) [1] /\
+  match impl_run PSql ds [OPreClient (CAdd 1)] with
+  | Some (d, _) => option_map (map fst) (fd_shuffled_pass d 2 [1%nat; 0%nat] [1]) = Some [B [97]; B [99]; B [98]]
+  | None => False
+  end.
+Proof. cbv zeta. split; [easy|]. split; [repeat constructor; easy|]. vm_compute. reflexivity. Qed.
+
 Print Assumptions C08_impls_refine_spec.
 Print Assumptions C08_slice_never_enlarges.
 Print Assumptions C08_range_is_half_open.
@@ -184,6 +227,8 @@ Print Assumptions C08_chain_append.
 Print Assumptions C08_translated_chains.
 Print Assumptions C08_shuffled_pass_visits_each_once.
 Print Assumptions C08_iteration_order.
+Print Assumptions C08_ctor_chain_equiv.
+Print Assumptions C08_translated_methods.
 Print Assumptions C08_derive_is_persistent.
 Print Assumptions C08_get_clients_request_order.
 Print Assumptions C08_mem_dict_order_irrelevant.
